@@ -152,7 +152,7 @@ func vfDelimArg(d vfDelim) (string, bool) {
 		}
 		return d.Id, true
 	case "re":
-		if d.Id == "[,:]" || d.Id == ",+" || d.Id == ",|, " {
+		if d.Id == "[,:]" || d.Id == ",+" || d.Id == ",|, " || d.Id == "b*" {
 			return d.Id, true
 		}
 		if syms, ok := vfU8Delims[d.Id]; ok && d.Id[0] == '[' {
